@@ -11,7 +11,7 @@ import vlib
 from vlib import Infra, log
 
 HARNESS_FILES = ["zz_verif_common_test.go", "zz_verif_algo_test.go", "zz_verif_algo_cases_test.go",
-                 "zz_verif_algo_record_test.go", "zz_verif_algo_hist_test.go"]
+                 "zz_verif_algo_record_test.go", "zz_verif_algo_hist_test.go", "zz_verif_algo_scan_test.go"]
 KINDS = ["v2", "v1", "exact", "boundary", "prefix", "suffix", "equal"]
 _TAG = re.compile(r'^<<"(CASE|TABLE|THMFAIL)", (.*)>>$')
 
